@@ -1,4 +1,5 @@
 import GdVerif.Lemmas.Decodes
+import GdVerif.Lemmas.Text
 /-
   Text lemmas used by the Minecraft decode theorems (all about `GdVerif/Base.lean` + `Buffer.lean`
   definitions; nothing Minecraft-specific): decimal rendering vs. Rust's integer `FromStr`, UTF-16 and
@@ -11,64 +12,22 @@ namespace Gd
 /-- ASCII decimal digits -/
 def IsDigits (bs : Bytes) : Prop := ∀ b ∈ bs, 48 ≤ b.toNat ∧ b.toNat ≤ 57
 
-theorem natDec_eq (n : Nat) : natDec n = (Nat.toDigits 10 n).map (fun c => UInt8.ofNat c.toNat) := by
-  simp [natDec, asciiBytes]
-
-theorem digitChar_bounds {c : Char} (h : c.isDigit = true) : 48 ≤ c.toNat ∧ c.toNat ≤ 57 := by
-  simp only [Char.isDigit, Bool.and_eq_true, decide_eq_true_eq] at h
-  obtain ⟨h1, h2⟩ := h
-  have e1 : ('0' : Char).val = 48 := rfl
-  have e2 : ('9' : Char).val = 57 := rfl
-  rw [e1] at h1; rw [e2] at h2
-  have a1 : (48 : UInt32).toNat ≤ c.val.toNat := UInt32.le_iff_toNat_le.mp h1
-  have a2 : c.val.toNat ≤ (57 : UInt32).toNat := UInt32.le_iff_toNat_le.mp h2
-  exact ⟨a1, a2⟩
+theorem isDigit_bounds {b : UInt8} (h : isDigit b = true) : 48 ≤ b.toNat ∧ b.toNat ≤ 57 := by
+  simpa [isDigit, inRange] using h
 
 theorem natDec_digits (n : Nat) : IsDigits (natDec n) := by
   intro b hb
-  rw [natDec_eq] at hb
-  obtain ⟨c, hc, rfl⟩ := List.mem_map.mp hb
-  have := digitChar_bounds (Nat.isDigit_of_mem_toDigits (by decide) (by decide) hc)
-  rw [UInt8.toNat_ofNat', Nat.mod_eq_of_lt (by omega)]
-  exact this
+  exact isDigit_bounds (List.all_eq_true.mp (natDec_spec n).1 b hb)
 
-theorem natDec_ne_nil (n : Nat) : natDec n ≠ [] := by
-  rw [natDec_eq]
-  simp [Nat.toDigits_ne_nil]
+theorem natDec_ne_nil (n : Nat) : natDec n ≠ [] := (natDec_spec n).2.1
 
-theorem digitsVal_map_aux (l : List Char) (hl : ∀ c ∈ l, c.isDigit = true) (init : Nat) :
-    (l.map (fun c => UInt8.ofNat c.toNat)).foldl (fun acc (b : UInt8) => acc * 10 + (b.toNat - 48)) init
-      = Nat.ofDigitChars 10 l init := by
-  induction l generalizing init with
-  | nil => simp [Nat.ofDigitChars]
-  | cons c r ih =>
-    have hc := digitChar_bounds (hl c (by simp))
-    simp only [List.map_cons, List.foldl_cons, Nat.ofDigitChars_cons]
-    rw [ih (fun c' h' => hl c' (by simp [h']))]
-    congr 1
-    rw [UInt8.toNat_ofNat', Nat.mod_eq_of_lt (by omega)]
-    have : ('0' : Char).toNat = 48 := rfl
-    rw [this, Nat.mul_comm]
-
-theorem digitsVal_natDec (n : Nat) : digitsVal (natDec n) = n := by
-  unfold digitsVal
-  rw [natDec_eq, digitsVal_map_aux _ (fun c hc => Nat.isDigit_of_mem_toDigits (by decide) (by decide) hc)]
-  exact Nat.ofDigitChars_ten_toDigits
+theorem digitsVal_natDec (n : Nat) : digitsVal (natDec n) = n := (natDec_spec n).2.2
 
 theorem IsDigits.all {bs : Bytes} (h : IsDigits bs) : bs.all isDigit = true := by
   rw [List.all_eq_true]
   intro b hb
   have := h b hb
   simp [isDigit, inRange, this.1, this.2]
-
-theorem parseUnsigned_digits (bits : Nat) (s : Bytes) (hne : s ≠ []) (hd : IsDigits s) :
-    parseUnsigned bits s = if digitsVal s < 2 ^ bits then some (digitsVal s) else none := by
-  have hall := hd.all
-  unfold parseUnsigned
-  split
-  · exact absurd (hd 43 (by simp)).1 (by decide)
-  · have hemp : s.isEmpty = false := by cases s <;> simp_all
-    simp [hemp, hall]
 
 theorem parseSigned_digits (bits : Nat) (s : Bytes) (hne : s ≠ []) (hd : IsDigits s) :
     parseSigned bits s = if digitsVal s < 2 ^ (bits - 1) then some (digitsVal s : Int) else none := by
@@ -98,19 +57,14 @@ theorem parseSigned_minus_digits (bits : Nat) (s : Bytes) (hne : s ≠ []) (hd :
     · rename_i hn43 hn45
       exact absurd rfl (hn45 s)
 
-/-- Rust `str::parse::<uN>` reads back what `to_string` printed -/
-theorem parseUnsigned_natDec (bits n : Nat) (h : n < 2 ^ bits) : parseUnsigned bits (natDec n) = some n := by
-  rw [parseUnsigned_digits bits _ (natDec_ne_nil n) (natDec_digits n), digitsVal_natDec]
-  simp [h]
-
 theorem intDec_nonneg (n : Nat) : intDec (n : Int) = natDec n := by
-  simp [intDec, natDec, Int.repr_eq_if]
+  have : ¬ ((n : Int) < 0) := by omega
+  simp [intDec, this]
 
 theorem intDec_neg (n : Nat) (h : 0 < n) : intDec (-(n : Int)) = 45 :: natDec n := by
-  have hneg : ¬ (0 : Int) ≤ -(n : Int) := by omega
-  simp only [intDec, natDec, Int.toString_eq_repr, Int.repr_eq_if, hneg, ↓reduceIte, Int.neg_neg, Int.toNat_natCast,
-    asciiBytes, String.toList_append, List.map_append, Nat.toString_eq_repr]
-  rfl
+  have hlt : (-(n : Int)) < 0 := by omega
+  unfold intDec
+  rw [if_pos hlt, Int.neg_neg, Int.toNat_natCast]
 
 /-- Rust `str::parse::<i32>` (and any signed width) reads back what `to_string` printed -/
 theorem parseSigned_intDec (bits : Nat) (i : Int) (hlo : -(2 ^ (bits - 1) : Int) ≤ i) (hhi : i < 2 ^ (bits - 1)) :
